@@ -196,8 +196,8 @@ def run_case(a):
         if "./events" not in idx_exports:
             viol.append(("C12 index-does-not-reexport-events", "events.ts written but index.ts does not re-export it"))
         if out.mods["events.ts"].errors:
-            e = out.mods["events.ts"].errors[0]
-            return {"blocked": "events.ts unparsable (C01): %s | %s" % (e["msg"], e["text"])}
+            pf = common.parse_fault(out, ("events.ts",))
+            return {"viol": [("C12 events.ts-does-not-parse " + pf[0], pf[1])], "n": len(truth), "feats": [], "witness": proj.witness_of(files, mode)}
         payload_ident = {f[0]: f[2] for f in payload_forms(rnd) if f[2].isidentifier()}
         ls = out.listeners()
         by_event = {}
